@@ -84,6 +84,27 @@ def showFrameLog (rs : List RecR) : String :=
   let ss := (rs.map (fun r => String.intercalate "/" (r.frames.map (fun f => (showFrame f).replace " " "_")))).mergeSort strLeS
   if ss.isEmpty then "-" else String.intercalate "||" ss
 
+/-- guard report of the membership queries `q` against the collection `c`:
+(all guards ok, reasons, member verdicts, certified member verdicts, unreported query strings, of them
+certified non-members) -/
+def memberReport (c q : List PS) (check : Bool) :
+    Except Err (Bool × List String × Nat × Nat × Nat × Nat) := do
+  let subs ← Graph.getSubgraphs c
+  let rs ← subs.mapM MorphG.buildG
+  let cls := rs.all (fun r => r.guardsOk && r.res.complete && r.res.unappended.isEmpty)
+  let legs := rs.map (fun r => r.res.legs)
+  let verts := (legs.map List.flatten).flatten
+  let pairs := legs.flatMap (fun l => q.map (fun x => (l, x)))
+  let isDep := fun (p : List (List PS) × PS) =>
+    match (MorphG.memberRunG p.1 check p.2).1 with | .error .dependent => true | _ => false
+  let deps := pairs.filter isDep
+  let depsOk := deps.filter (fun p => MorphG.memberGuard p.1 check p.2)
+  let bad := pairs.filter (fun p => !(MorphG.memberGuard p.1 check p.2))
+  let non := q.filter (fun x => !(deps.any (fun p => p.2.beq x)))
+  let nonOk := non.filter (fun x => MorphG.nonMemberCert verts x)
+  let why := (if cls then [] else ["classification"]) ++ bad.map (fun p => MorphG.memberWhy p.1 check p.2)
+  return (cls && bad.isEmpty, why, deps.length, depsOk.length, non.length, nonOk.length)
+
 def handle (line : String) : Option String :=
   match line.splitOn " " with
   | ["classify", gs] => do
@@ -173,6 +194,36 @@ def handle (line : String) : Option String :=
       let c ← Graph.collInit gs
       let q ← Graph.collInit qs
       selectDependents c.length (← classify c) q)
+  | ["mguards", cmd, gs, qs] => do
+    -- guard condition of a membership query (`Properties/C08.lean`): `ans` = the answer of the plain model;
+    -- `guards=ok`: the classification of `gs` passes its certificate checks (C02) and every run of a query
+    -- string against the canonical legs of every component passes `memberGuard`; `memb=a/b`: member verdicts /
+    -- of them certified; `non=c/d`: query strings no component reports / of them with a certificate of
+    -- non-membership (a string commuting with all canonical vertices and anticommuting with the query)
+    let gs ← psList? gs
+    let qs ← if cmd == "space" then some [] else psList? qs
+    return showExcept id (do
+      let c ← Graph.collInit gs
+      let q ← if cmd == "space" then Graph.collInit (PS.genAll (match c with | [] => 0 | g :: _ => g.len))
+              else Graph.collInit qs
+      let check := cmd != "isin" && cmd != "iseq"
+      let r1 ← memberReport c q check
+      let ans ← (match cmd with
+        | "isin" => do return showBool (← isIn c.length (← classify c) q)
+        | "iseq" => do
+          let a ← isIn c.length (← classify c) q
+          if !a then return showBool false
+          return showBool (← isIn q.length (← classify q) c)
+        | "seldep" => do return showOpt showSortedPS (← selectDependents c.length (← classify c) q)
+        | _ => do return showOpt showSortedPS (← getSpace c (← classify c)) : Except Err String)
+      -- `is_eq` also asks the converse question when the first answer is yes
+      let r ← if cmd == "iseq" && ans == "T" then do
+                let r2 ← memberReport q c false
+                pure (r1.1 && r2.1, r1.2.1 ++ r2.2.1, r1.2.2.1 + r2.2.2.1, r1.2.2.2.1 + r2.2.2.2.1,
+                      r1.2.2.2.2.1 + r2.2.2.2.2.1, r1.2.2.2.2.2 + r2.2.2.2.2.2)
+              else pure r1
+      let why := String.intercalate "," r.2.1.eraseDups
+      return s!"ans={ans} guards={if r.1 then "ok" else "FAIL:" ++ why} memb={r.2.2.1}/{r.2.2.2.1} non={r.2.2.2.2.1}/{r.2.2.2.2.2}")
   | ["space", gs] => do
     let gs ← psList? gs
     return showExcept (showOpt showSortedPS) (do
